@@ -5,6 +5,9 @@ import core
 from core import call_matches, call_names, backward_slice, op_local, op_place, place_str
 
 FROM_RESIDUAL = 'std::ops::FromResidual::from_residual'
+ATOMIC_STORE = ['re:atomic::Atomic[A-Za-z0-9]*(::<[^>]*>)?::store$']
+ATOMIC_LOAD = ['re:atomic::Atomic[A-Za-z0-9]*(::<[^>]*>)?::load$']
+ATOMIC_RMW = ['re:atomic::Atomic[A-Za-z0-9]*(::<[^>]*>)?::(swap|fetch_[a-z_]+|compare_exchange(_weak)?)$']
 TRY_BRANCH = 'std::ops::Try::branch'
 
 
@@ -464,3 +467,61 @@ def result_guards(ctx, key, body, call_blocks, site, desc, rule='K3-result-check
             found = True
             break
     return ctx.ob(key, rule, body.path, desc, found, '' if found else 'site does not depend on the outcome of the call', body.loc(site))
+
+
+# ----------------------------------------------------------------------------- lifted call sites
+
+def closure_operands(body, t):
+    """def-paths of closures passed as arguments of call t (closure values created in this body)."""
+    res = []
+    for a in t['a']:
+        l = op_local(a)
+        if l is None:
+            continue
+        for (bi, si, kind, x) in body.defs().get(l, []):
+            if kind == 'assign' and x['r']['k'] == 'agg' and x['r']['ak'].startswith('Closure:'):
+                res.append(x['r']['ak'][len('Closure:'):])
+    return res
+
+
+def sites_reaching(body, pats, lift=True):
+    """call blocks of `body` that call something matching pats - directly, through crate-local
+    callees (may-reach), or through a closure passed to the call (e.g. Option::and_then(|o| ..))."""
+    F = body.facts
+    key = ('reach',) + tuple(pats)
+    cache = F.__dict__.setdefault('_reach_cache', {})
+    if key not in cache:
+        cache[key] = F.may_reach(*pats)
+    reach = cache[key]
+    nb = body.normal_blocks()
+    res = []
+    for bi, t in body.calls():
+        if bi not in nb:
+            continue
+        if call_matches(t, pats):
+            res.append(bi)
+            continue
+        if not lift:
+            continue
+        if any(n in reach for n in call_names(t) if n in F.bodies):
+            res.append(bi)
+            continue
+        if any(c in reach for c in closure_operands(body, t)):
+            res.append(bi)
+    return res
+
+
+def field_mutators(F, field, allowed_rx, bodies=None):
+    """calls whose receiver (arg 0) derives from `field` and whose callee does NOT match allowed_rx.
+    returns list of (body.path, callee, loc)"""
+    rx = re.compile(allowed_rx)
+    res = []
+    for b in (bodies if bodies is not None else F.bodies.values()):
+        for bi, t in b.all_calls():
+            if not t['a']:
+                continue
+            if field in receiver_fields(b, t, 0):
+                nm = (t.get('r') or t.get('f') or '?')
+                if not rx.search(nm):
+                    res.append((b.path, nm, b.loc(bi)))
+    return res
